@@ -27,7 +27,7 @@ _total_ordering_fns = set()
 for _n in dir(functools):
     if _n.startswith("_") and ("_from_" in _n):
         _total_ordering_fns.add(getattr(functools, _n))
-_TO_MAP = {
+_TO_NAMES = {
     "_gt_from_lt": lambda o, a, b: And(Not(o.cmp_dunder("__lt__", a, b)), Not(o.cmp_dunder("__eq__", a, b))),
     "_le_from_lt": lambda o, a, b: Or(o.cmp_dunder("__lt__", a, b), o.cmp_dunder("__eq__", a, b)),
     "_ge_from_lt": lambda o, a, b: Not(o.cmp_dunder("__lt__", a, b)),
@@ -41,6 +41,8 @@ _TO_MAP = {
     "_gt_from_ge": lambda o, a, b: And(o.cmp_dunder("__ge__", a, b), Not(o.cmp_dunder("__eq__", a, b))),
     "_lt_from_ge": lambda o, a, b: Not(o.cmp_dunder("__ge__", a, b)),
 }
+# functools.total_ordering renames the shared helper functions (opfunc.__name__ = opname): key the models by identity
+_TO_MAP = dict((getattr(functools, n), f) for n, f in _TO_NAMES.items() if hasattr(functools, n))
 
 _CMP_DUNDER = {ast.Eq: ("__eq__", "__eq__"), ast.NotEq: ("__ne__", "__ne__"), ast.Lt: ("__lt__", "__gt__"),
                ast.LtE: ("__le__", "__ge__"), ast.Gt: ("__gt__", "__lt__"), ast.GtE: ("__ge__", "__le__")}
@@ -521,6 +523,10 @@ class Ops(object):
                     return And(mk_cmp("le", cont.start, x), mk_cmp("lt", x, cont.stop))
                 return Or(*[Eq(x, c) for c in cont])
             return x in cont
+        if isinstance(cont, dict) and type(cont) is not dict and self.hooks is not None:
+            r = self.hooks.contains(self, cont, x)
+            if r is not None:
+                return r
         if isinstance(cont, (tuple, list, set, frozenset, dict)):
             if self.concrete(x) and self.concrete(cont if not isinstance(cont, dict) else list(cont)):
                 try:
@@ -674,6 +680,10 @@ class Ops(object):
                 return self.native_call(operator.getitem, (obj, idx))
             k = self.index_value(idx, len(obj), type(obj).__name__ + " index")
             return obj[k]
+        if isinstance(obj, dict) and type(obj) is not dict and self.hooks is not None:
+            r = self.hooks.getitem(self, obj, idx)
+            if r is not NotImplemented:
+                return r
         if isinstance(obj, dict):
             k = self.dict_find(obj, idx)
             if k is _MISSING:
@@ -701,6 +711,10 @@ class Ops(object):
                 return
             obj[self.index_value(idx, len(obj), "list assignment index")] = v
             return
+        if isinstance(obj, dict) and type(obj) is not dict and self.hooks is not None:
+            r = self.hooks.setitem(self, obj, idx, v)
+            if r is not NotImplemented:
+                return
         if isinstance(obj, dict) and type(obj).__setitem__ is dict.__setitem__:
             k = self.dict_find(obj, idx)
             if k is _MISSING:
@@ -1040,7 +1054,7 @@ class Ops(object):
             if f.__module__ in ("logging", "warnings"):
                 return None       # log.debug/info/warning, warnings.warn: dropped after argument evaluation (DESIGN 3.1)
             if f in _total_ordering_fns:
-                return _TO_MAP[f.__name__](self, args[0], args[1])
+                return _TO_MAP[f](self, args[0], args[1])
             if model is not None:
                 return model(self, *args, **kwargs)
             if f in self.force_native or (not is_repo_function(f) and self.all_concrete(args, kwargs)):
@@ -1818,6 +1832,8 @@ def _m_divmod(o, a, b):
 
 
 def _m_pow(o, a, b, m=None):
+    if o.all_concrete((a, b, m)):
+        return o.native_call(pow, (a, b) if m is None else (a, b, m))
     r = o.binop(ast.Pow, a, b)
     if m is not None:
         r = o.binop(ast.Mod, r, m)
